@@ -127,7 +127,7 @@ func (e *distEnv) addrOf(a model.DAccount) string {
 	case model.KModule:
 		return chain.ModuleAddr(a.ID)
 	case model.KBase:
-		return a.ID
+		return strings.ToLower(a.ID) // the bank knows one account per address, however it is spelled
 	}
 	return ""
 }
@@ -508,7 +508,7 @@ func (e *distEnv) checkModel(c *fw.Case, obs distBlockObs, pfx string) {
 			return chain.ModuleAddr(strings.TrimPrefix(k, model.KModule+"-"))
 		}
 		if strings.HasPrefix(k, model.KBase+"-") {
-			return strings.TrimPrefix(k, model.KBase+"-")
+			return strings.ToLower(strings.TrimPrefix(k, model.KBase+"-"))
 		}
 		return k
 	}
